@@ -240,7 +240,10 @@ func (g *Gen) Type(depth int) ast.Type {
 			}
 			for _, prev := range br {
 				// a union listing the same branch twice (or the same object twice) is outside the grammar
-				v.Assume(!v.DeepEqual(prev, b))
+				// ... also when the two only differ in nullability (`T | T?` is the degenerate spelling of `T?`)
+				pb := b
+				pb.Nullable = prev.Nullable
+				v.Assume(!v.DeepEqual(prev, pb))
 				if prev.Kind == ast.KindRef && b.Kind == ast.KindRef {
 					v.Assume(v.Or(prev.Ref.ReferredPkg != b.Ref.ReferredPkg, prev.Ref.ReferredType != b.Ref.ReferredType))
 				}
